@@ -203,9 +203,17 @@ fn main() {
             let dir = util::fresh_dir(&root, "stall");
             let workers = arg(&args, "--workers").and_then(|s| s.parse().ok()).unwrap_or(4);
             let secs = arg(&args, "--secs").and_then(|s| s.parse().ok()).unwrap_or(10);
-            let r = match mt::forced_stall(&dir, workers, secs) {
-                Ok(v) => v,
-                Err(e) => json!({"error": e}),
+            // the schedule itself runs under a watchdog: with a worker parked at the pause site a
+            // call of the driver may never come back (e.g. if the site lies inside a lock region)
+            let (tx, rx) = std::sync::mpsc::channel();
+            let d2 = dir.clone();
+            std::thread::spawn(move || {
+                let _ = tx.send(mt::forced_stall(&d2, workers, secs));
+            });
+            let r = match rx.recv_timeout(std::time::Duration::from_secs(secs + 45)) {
+                Ok(Ok(v)) => v,
+                Ok(Err(e)) => json!({"error": e}),
+                Err(_) => json!({"error": "the driver did not get through the schedule (a call did not return while a worker was parked at the pause site)"}),
             };
             println!("{}", serde_json::to_string(&json!({"result": r})).unwrap());
             std::process::exit(0);
